@@ -65,7 +65,8 @@ pub fn gen_replay(rng: &mut Rng, k: usize, o: &GenOpts) -> (Replay, Vec<String>)
     match shape { 0 => r.end = None, 1 => r.metadata = None, 2 => r.double_end = true, 3 => { r.end = None; r.metadata = None; } _ => {} }
     if let Some(e) = r.end.as_mut() { e[0] = [0u8, 1, 2, 3, 7][(rng.next() % 5) as usize]; if e.len() >= 2 { e[1] = [255u8, 0, 1, 2, 3][(rng.next() % 5) as usize]; } if e.len() >= 6 { for j in 2..6 { e[j] = [255u8, 0, 1, 2, 3][(rng.next() % 5) as usize]; } } }
     // the Game End block is as long as the payload table says, whatever the version: every layout the reader accepts (1, 2, 6 bytes, and longer) at any version
-    if k % 11 == 5 { if let Some(e) = r.end.as_mut() { let want = [6usize, 2, 1, 8, 2, 6][(k / 11) % 6]; let fill = [255u8, 255, 0, 1, 255, 2, 9, 9]; while e.len() < want { e.push(fill[e.len()]); } e.truncate(want); } }
+    // (a *duplicated* Game End is recognised by its size being the version's own: only single Game Ends vary in length)
+    if k % 11 == 5 && !r.double_end { if let Some(e) = r.end.as_mut() { let want = [6usize, 2, 1, 8, 2, 6][(k / 11) % 6]; let fill = [255u8, 255, 0, 1, 255, 2, 9, 9]; while e.len() < want { e.push(fill[e.len()]); } e.truncate(want); } }
     if gte(v,3,3) && rng.next() % 2 == 0 { let nb = 1 + (rng.next() % 3) as usize; let last = match rng.next() % 6 { 0 => 512, 1 => 1, 2 => 511, _ => 1 + (rng.next() % 512) as u32 }; let actual = (nb as u32 - 1) * 512 + last; r.gecko = Some((rng.bytes(512 * nb), actual)); }
     if rng.next() % 3 == 0 { let mut m = vec![]; gen_tree(rng, 1, &mut m); r.metadata = r.metadata.map(|_| m); }
     let tags = vec![format!("v{}.{}", v.0, v.1), format!("ports{}", pl.len()), format!("slots{}", nslots), (if r.frames.len() >= 255 { "frames255+".to_string() } else { format!("frames{}", r.frames.len().min(9)) }), format!("absent{}", absent.len().min(5)),
